@@ -107,6 +107,18 @@ func checkC12(ctx *Ctx) {
 		{Name: "C", Kind: "proc", Cmd: "cat {i:in} > {o:out}", Outs: map[string]string{"out": "{i:in}.C"}}},
 		Edges: []Edge{{From: "src.out", To: "A.in"}, {From: "A.out", To: "tagger1.in"}, {From: "tagger1.out", To: "tagger2.in"}, {From: "tagger2.out", To: "C.in"}}}
 	wfs = append(wfs, wf{"maptotags-chain", chaind, tagPre, nil})
+	// a task with a streaming and an ordinary out-port: the consumer of the stream links the producer's record while
+	// the producer is still completing and publishing it (repeated: whether the streaming IP is published first is
+	// Go's map order)
+	twoPaths := tagPaths[:8]
+	twod := &Desc{Name: "streamtwo", Max: 24, Nodes: []Node{{Name: "src", Kind: "filesource", Paths: twoPaths},
+		{Name: "prod", Kind: "proc", Cmd: "( cat {i:in} > {os:out} ; echo log > {o:log} )", Outs: map[string]string{"out": "{i:in}.stream", "log": "{i:in}.log"}},
+		{Name: "cons", Kind: "proc", Cmd: "( cat {i:in} > {o:out} )", Outs: map[string]string{"out": "{i:in}.copy"}},
+		{Name: "cons2", Kind: "proc", Cmd: "( cat {i:in} > {o:out} )", Outs: map[string]string{"out": "{i:in}.copy2"}}},
+		Edges: []Edge{{From: "src.out", To: "prod.in"}, {From: "prod.out", To: "cons.in"}, {From: "prod.log", To: "cons2.in"}}}
+	for k := 0; k < 3; k++ {
+		wfs = append(wfs, wf{fmt.Sprintf("stream-and-ordinary-out-port-%d", k), twod, tagPre, nil})
+	}
 	// RunTo with FromStr feeders longer than the buffer (the port maps are mutated by the feeders)
 	rt := Dag{Max: 2, Nodes: []DNode{{Name: "s0", Kind: "src", Items: 3}, {Name: "P0", Kind: "proc", Ins: []string{"s0"}, PIn: "@", PVals: []string{"a", "b", "c"}},
 		{Name: "P1", Kind: "proc", Ins: []string{"P0"}, PIn: "@", PVals: []string{"x", "y", "z"}}}}
